@@ -621,6 +621,7 @@ var corpus = []string{
 func runC16(c *Ctx) {
 	c.Rule = "exhaustive: every byte string of length <= 2 over all 256 byte values and of length <= L (3 quick / 4 thorough) over the " +
 		"29-symbol significant alphabet (incl. \\v \\f), both lexer modes; random longer inputs over a weighted alphabet; byte mutations of /repo/examples/*.gr. " +
+		"structured numbers: every combination of prefix (0x 0X 0b 0o), digits/underscores, dot, fraction, exponent marker e E p P, sign, exponent digits and a following non-digit, alone and inside expressions. " +
 		"interning histories: 8 other entry points (repl.EvalString, EvalStringWithOption, eval.NewState, repl.EvalOne, parser.ParseProgram, " +
 		"extensions.Init, repl.Grol, eval.EvalString) run between two lexings and between the NextToken calls of one lexer, tokens compared by pointer. " +
 		"non-trivial = distinct input with a multi-byte token, a string, a comment or an ILLEGAL byte"
@@ -686,6 +687,43 @@ func runC16(c *Ctx) {
 		}
 		c16One(c, []byte("//"+a+"x"+a+"\ny"))
 	}
+	// structured numbers: prefix, digits/underscores, '.', fraction, exponent marker e E p P, sign, exponent digits, then
+	// a non-digit - all combinations (up to ~12 bytes), alone and embedded in expressions
+	seenNum := map[string]bool{}
+	nNum := 0
+	for _, pre := range []string{"", "0x", "0X", "0b", "0o", "1"} {
+		for _, ds := range []string{"", "1", "_f", "1_0"} {
+			for _, fr := range []string{"", ".", ".8", ".8_"} {
+				for _, mk := range []string{"", "e", "E", "p", "P"} {
+					signs, exps := []string{""}, []string{""}
+					if mk != "" {
+						signs, exps = []string{"", "+", "-"}, []string{"", "1", "_"}
+					}
+					for _, sg := range signs {
+						for _, ex := range exps {
+							for _, tail := range []string{"", ";", "x", "."} {
+								w := pre + ds + fr + mk + sg + ex + tail
+								if w == "" || seenNum[w] {
+									continue
+								}
+								seenNum[w] = true
+								c16One(c, []byte(w))
+								nNum++
+								if c.Thorough() || nNum%3 == 0 {
+									c16One(c, []byte("x = "+w))
+								}
+								if c.Thorough() {
+									c16One(c, []byte("a="+w+"+1"))
+									c16One(c, []byte("f("+w+")"))
+								}
+							}
+						}
+					}
+				}
+			}
+		}
+	}
+	c.Count(fmt.Sprintf("structured-numbers=%d", nNum))
 	// every byte value between / next to tokens of every kind (control bytes 0x00-0x1f, 0x7f, 0x80-0xff included)
 	for b := 0; b < 256; b++ {
 		x := string([]byte{byte(b)})
@@ -713,7 +751,7 @@ func runC16(c *Ctx) {
 	c.Extra["exhaustive_max_len"] = maxLen
 	// random longer inputs: weighted alphabet + fragments
 	frags := []string{"1e+", "1e", ".5", "..", "0x1f", "0b10", "\"", "`", "\\", "\\x4", "\\u26", "\\U0001F600", "//", "/*", "*/", "\n", " ", "\t", "\r",
-		"\v", "\f", "\x7f", "\x01", "\x1f", "func", "true", "if", "x", "_a1", "1_0", "e", "E", ".", "+", "-", "=", "=>", ":=", "<", "<<", "&", "|", "\x00", "\xff", "\xc2\xa0", "\xe2\x80\x80", "@", "#", "(", ")", "[", "]", "{", "}", ",", ";", "9", "0"}
+		"\v", "\f", "\x7f", "\x01", "\x1f", "p", "P", "0x1.8p", "0o7", "0X_f", "func", "true", "if", "x", "_a1", "1_0", "e", "E", ".", "+", "-", "=", "=>", ":=", "<", "<<", "&", "|", "\x00", "\xff", "\xc2\xa0", "\xe2\x80\x80", "@", "#", "(", ")", "[", "]", "{", "}", ",", ";", "9", "0"}
 	nr := 3000
 	if c.Thorough() {
 		nr = 150000
